@@ -249,6 +249,9 @@ EXTRA["C12"] = (EXTRA["C12"][0] + "; has_root on ~3 700 buildable parsed texts",
                EXTRA["C12"][1] + " No buildable text of the C06.text catalogue reports `sometimes`, up to one known family (C12.text).")
 EXTRA["C01"] = ("; the whole route text -> parser -> rule checker -> encoder evaluated on ~4 200 texts with flags / classes / escapes and the program compared with the reference language",
                " End to end from the text (C01.text): on ~4 200 texts with flags anywhere, classes, escapes and multi-byte characters the program has exactly the language the README gives to the tokens.")
+EXTRA["C07"] = (EXTRA["C07"][0] + "; the whole route text -> program vs. reference language on ~4 200 texts (multi-character literals)",
+               EXTRA["C07"][1] + " C07.text (= C01.text): from the text to the program language, which is where a quantifier binding to the last character of a literal shows.")
+EXTRA["C18"] = ("; sibling rule on the Program impls", " Matching is the compiled program's for every glob, invariant ones included (C01.delegate).")
 for _pid, (_t, _x) in EXTRA.items():
     CLAIMS[_pid] = dict(CLAIMS[_pid], technique=CLAIMS[_pid]["technique"] + _t, text=CLAIMS[_pid]["text"] + _x)
 
